@@ -172,7 +172,7 @@ func runListenerLimits(c *sim.Ctl) {
 		if wantHB == 0 {
 			wantHB = 0 // net/http default
 		}
-		if huge := wantHB > 1<<40; hs.Server.MaxHeaderBytes != wantHB && !(huge && hs.Server.MaxHeaderBytes > 1<<40) { // (a limit nobody reaches may be rounded)
+		if huge := wantHB > 1<<30; hs.Server.MaxHeaderBytes != wantHB && !(huge && hs.Server.MaxHeaderBytes > 1<<30) { // (a limit nobody reaches may be rounded)
 			c.Violate("C17/shared-header-limit-not-strictest", "", "listener MaxHeaderBytes is %d; the sites configure %v: the strictest is %d", hs.Server.MaxHeaderBytes, col(func(s llSite) int { return s.maxHdr }), wantHB)
 		}
 		c.Probe("effective-fields-read")
@@ -257,7 +257,7 @@ func runListenerLimits(c *sim.Ctl) {
 	e2.Close()
 
 	// (2c) request header size
-	if effHdrBytes > 1<<40 {
+	if effHdrBytes > 1<<30 {
 		// a limit nobody reaches: an ordinary request passes
 		small := dial("smallheader")
 		small.Send([]byte("GET / HTTP/1.1\r\nHost: " + host + "\r\nX-Big: " + strings.Repeat("a", 4096) + "\r\n\r\n"))
